@@ -362,6 +362,19 @@ def hnfIterate (d : Data) : Res Data := do
     let d ← d.swap k
     pure d.back
 
+/-- tail of `LLLHNFCalc::process`: `reduce(i, k)` normalises the pivot of row `i < k` only, so the last row
+(the first row of the result) is normalised after the loop -/
+def hnfNormalizeLast (d : Data) : Res Data :=
+  if 0 < d.tr.m then
+    let i := d.tr.m - 1
+    match d.nzColIn i with
+    | some j =>
+      let a := ent d.tr.target i j
+      let u : Int := if a < 0 then -1 else 1
+      if u ≠ 1 then d.mulRow i u else pure d
+    | none => pure d
+  else pure d
+
 /-- the final row reversal of `LLLHNFCalc::result` -/
 def reverseRows (t : Tr) : Nat → Nat → Res Tr
   | 0, _ => pure t
@@ -374,6 +387,7 @@ def reverseRows (t : Tr) : Nat → Nat → Res Tr
 /-- `lll_hnf_in_place`: `(H, P, P⁻¹)` -/
 def lllHnf (fuel m n : Nat) (A : Mat) : Res Tr := do
   let d ← loopWhile hnfIterate fuel (Data.new m n A)
+  let d ← hnfNormalizeLast d
   reverseRows d.tr (d.tr.m / 2) 0
 
 end Yuiv.C10
